@@ -2,7 +2,7 @@
 C10 — property theorems.  All statements are for every integer type `t = (bits, signed)`,
 every base `2..36`, every value of the type, every buffer / input string.
 -/
-import TetlProofs.C10.Lemmas
+import TetlProofs.C10.Parse
 namespace Tetl.C10.Props
 open Tetl Tetl.C10
 
@@ -116,5 +116,108 @@ theorem toStr_eq (t : IntTy) (cap : Nat) (v : Int) (hv : t.inRange v = true)
   simp
 
 example : toStr ⟨32, true⟩ 12 (-2147483648) = .ok [45, 50, 49, 52, 55, 52, 56, 51, 54, 52, 56] := by rfl
+
+/-! ## parsing
+
+`Bytes s` (every code unit is < 256) is the only hypothesis besides the documented `2 ≤ base ≤ 36`
+and `8 ≤ bits` (so that the type holds the base; true for every C++ integer type). -/
+
+/-- `to_integer` (with or without white-space skipping) reads only inside the string, never overflows
+    an intermediate (no UB for `int`/`long`), and returns exactly the outcome of the reference pattern
+    *optional white space, optional `-` for signed types, longest digit run*: the value and the number
+    of consumed characters when the value is representable, `invalid_input` when there is no digit,
+    `overflow` when — and only when — the digits denote a value outside `[min, max]`
+    (`end = begin`, `value = 0` on both errors, as its tests require). -/
+theorem toInteger_eq (t : IntTy) (h8 : 8 ≤ t.bits) (ws : Bool) (s : List Nat) (hbytes : ∀ c ∈ s, c < 256)
+    (b : Nat) (hb : 2 ≤ b ∧ b ≤ 36) :
+    toInteger t ws s b = .ok (TIRes.ofSpec (Spec.parse t ws s b)) := by
+  unfold toInteger
+  have hbase : (((b : Int) < 2) || decide ((b : Int) > 36)) = false := by
+    simp only [Bool.or_eq_false_iff, decide_eq_false_iff_not]; omega
+  simp only [hbase, Bool.false_eq_true, if_false]
+  rw [parse_eq]
+  cases ws with
+  | false =>
+    simp only [Bool.false_eq_true, if_false, ok_bind]
+    exact toIntegerAt_spec t h8 b hb [] s hbytes
+  | true =>
+    simp only [if_true]
+    have hsk := skipWs_spec s [] hbytes
+    simp only [List.nil_append, List.length_nil, Nat.zero_add] at hsk
+    rw [hsk]
+    simp only [ok_bind]
+    have h := toIntegerAt_spec t h8 b hb (s.takeWhile Spec.isSpace) (s.dropWhile Spec.isSpace)
+      (fun c hc => hbytes c ((List.dropWhile_sublist _).subset hc))
+    rw [List.takeWhile_append_dropWhile] at h
+    exact h
+
+/-- non-vacuity: `" -128x"` as `int8_t`, base 10, with white-space skipping -/
+example : toInteger ⟨8, true⟩ true [32, 45, 49, 50, 56, 120] 10 = .ok ⟨5, .none, -128⟩ := by rfl
+
+/-- overflow is reported exactly at the type's limits: `to_integer` returns `overflow` iff the text has
+    a digit run whose value (with its sign) is not representable. -/
+theorem overflow_exact (t : IntTy) (h8 : 8 ≤ t.bits) (ws : Bool) (s : List Nat) (hbytes : ∀ c ∈ s, c < 256)
+    (b : Nat) (hb : 2 ≤ b ∧ b ≤ 36) :
+    ∃ r, toInteger t ws s b = .ok r ∧ (r.err = .overflow ↔ ∃ n, Spec.parse t ws s b = .range n) := by
+  refine ⟨_, toInteger_eq t h8 ws s hbytes b hb, ?_⟩
+  cases Spec.parse t ws s b <;> simp [TIRes.ofSpec, TIRes.mkErr]
+
+example : (toInteger ⟨8, true⟩ false [49, 50, 56] 10).toOption.map (·.err) = some .overflow := by rfl
+example : (toInteger ⟨8, true⟩ false [49, 50, 55] 10).toOption.map (·.err) = some .none := by rfl
+
+/-- `from_chars` for every input whose digits denote a representable value or that has no digits:
+    value, `ptr` and `ec` are those of [charconv.from.chars].  The excluded class
+    (`Spec.parse = .range _`) is finding F-C10-from-chars-ptr-on-overflow. -/
+theorem fromChars_eq_partial (t : IntTy) (h8 : 8 ≤ t.bits) (s : List Nat) (hbytes : ∀ c ∈ s, c < 256)
+    (b : Nat) (hb : 2 ≤ b ∧ b ≤ 36) (hnr : ∀ n, Spec.parse t false s b ≠ .range n) :
+    fromChars t s b = .ok (match Spec.parse t false s b with
+      | .ok v n => .ok v n
+      | .invalid => .invalid 0
+      | .range n => .range n) := by
+  unfold fromChars
+  rw [toInteger_eq t h8 false s hbytes b hb]
+  cases h : Spec.parse t false s b with
+  | ok v n => rfl
+  | invalid => rfl
+  | range n => exact absurd h (hnr n)
+
+example : ∀ n, Spec.parse ⟨16, false⟩ false [55, 102, 70, 33] 16 ≠ .range n := by
+  intro n h
+  have e : Spec.parse ⟨16, false⟩ false [55, 102, 70, 33] 16 = .ok 2047 3 := by rfl
+  rw [e] at h; cases h
+
+/-- In the excluded class the error class is still exact (`result_out_of_range`); only `ptr` deviates:
+    the model (like the code) returns `first`. -/
+theorem fromChars_range (t : IntTy) (h8 : 8 ≤ t.bits) (s : List Nat) (hbytes : ∀ c ∈ s, c < 256)
+    (b : Nat) (hb : 2 ≤ b ∧ b ≤ 36) (n : Nat) (h : Spec.parse t false s b = .range n) :
+    fromChars t s b = .ok (.range 0) := by
+  unfold fromChars
+  rw [toInteger_eq t h8 false s hbytes b hb, h]
+  rfl
+
+/-- the class contains a failing input: `"128"` as `int8_t` — the standard requires `ptr = first + 3` -/
+theorem fromChars_ptr_counterexample :
+    fromChars ⟨8, true⟩ [49, 50, 56] 10 = .ok (.range 0) ∧
+    Spec.parse ⟨8, true⟩ false [49, 50, 56] 10 = .range 3 := by
+  constructor <;> rfl
+
+/-! ## round trip -/
+
+/-- Formatting a value into any buffer that is large enough and parsing the written characters returns
+    the value and consumes exactly what was written — for every type, value and base. -/
+theorem round_trip (t : IntTy) (h8 : 8 ≤ t.bits) (v : Int) (hv : t.inRange v = true) (b : Nat)
+    (hb : 2 ≤ b ∧ b ≤ 36) (buf : List Nat) (hfit : (Spec.render v b).length ≤ buf.length) :
+    ∃ out p, toChars t v buf b = .ok (.ok out p) ∧ fromChars t (out.take p) b = .ok (.ok v p) := by
+  refine ⟨Spec.render v b ++ buf.drop (Spec.render v b).length, (Spec.render v b).length, ?_, ?_⟩
+  · rw [toChars_eq t v buf b hb hv]
+    simp [Spec.toChars, hfit]
+  · have htake : (Spec.render v b ++ buf.drop (Spec.render v b).length).take (Spec.render v b).length
+        = Spec.render v b := by simp
+    rw [htake]
+    have hp := parse_render t v hv b hb
+    rw [fromChars_eq_partial t h8 _ (render_bytes v b hb) b hb (by rw [hp]; intro n h; cases h), hp]
+
+example : toChars ⟨32, true⟩ (-255) (List.replicate 3 0) 16 = .ok (.ok [45, 102, 102] 3) := by rfl
+example : fromChars ⟨32, true⟩ [45, 102, 102] 16 = .ok (.ok (-255) 3) := by rfl
 
 end Tetl.C10.Props
